@@ -14,6 +14,7 @@ MICRO-ARRAY       array item getters index only under idx < UMGetNumItemsInArray
 Nothing here executes the codec."""
 import re
 from msa import ast as A
+from msa import guards as G
 from msa import cfg as C
 from msa import pair as P
 from msa.taint import P_canon
@@ -387,14 +388,16 @@ class Micro(object):
             if not re.match(r'^UMGet\w+FromArray$', f.q):
                 continue
             n += 1
-            conds = [c for c in f.walk() if c['k'] == 'ConditionalOperator']
-            ok = False
-            for c in conds:
-                g = A.strip_casts(c['ch'][0])
-                if g['k'] == 'BinaryOperator' and g.get('op') == '<' and is_null(c['ch'][2]) and \
-                        any((x.is_call() and q(x) == 'UMGetNumItemsInArray') or (x['k'] == 'MemberExpr' and x.get('n') == '_numItems') for x in g['ch'][1].walk()) and \
-                        any(x['k'] == 'MemberExpr' and x.get('n') == '_itemData' for x in c['ch'][1].walk()):
-                    ok = True
+            # every use of the handle's item storage is dominated by  idx < item count  (the ?: arms are separate CFG blocks, so the spelling and the arm order do not matter)
+            uses = [x for x in f.walk() if x['k'] == 'MemberExpr' and x.get('n') == '_itemData']
+            ok = bool(uses)
+            for u in uses:
+                dom = False
+                for (cn, t) in G.atoms_at(f, u):
+                    for (l, op, r) in A.rel_forms(cn, t):
+                        if op == '<' and any((x.is_call() and q(x) == 'UMGetNumItemsInArray') or (x['k'] == 'MemberExpr' and x.get('n') == '_numItems') for x in r.walk()):
+                            dom = True
+                ok = ok and dom
             res.ob(rule, f.where(), '%s indexes under idx < UMGetNumItemsInArray(handle)' % f.q, ok, function=f.q, key='%s|%s' % (rule, f.q),
                    message='%s forms an item pointer without the idx < UMGetNumItemsInArray(handle) test: an index past the field reads outside the buffer' % f.q)
         return n
